@@ -641,7 +641,13 @@ func (g *G) Next() (conn int, argv []string, malformed bool) {
 	case 1:
 		argv[0] = g.kw(argv[0])
 	}
-	if g.R.Intn(100) < g.Malformed {
+	blocking := false
+	switch strings.ToLower(argv[0]) {
+	case "blpop", "brpop", "blmove", "brpoplpush", "blmpop":
+		// a mutated timeout could become 0 = wait forever in a single-threaded run
+		blocking = true
+	}
+	if !blocking && g.R.Intn(100) < g.Malformed {
 		malformed = true
 		switch g.R.Intn(5) {
 		case 0:
